@@ -310,6 +310,26 @@ Theorem C20_failed_hint_write_row_first : fm2_history false = VVal (Some [119]) 
 Proof. split; [exact hint_before_row_resurrects|exact row_before_hint_does_not]. Qed.
 Print Assumptions C20_failed_hint_write_row_first.
 
+(* (f) ... in general: [hint_rows] — a file whose hint file lists something has a statistics row — holds in every reachable
+       state, and a failing hint write keeps it when the row is written first (pinned code and final repair), whether or not
+       the bytes of the hint entry reach the file when the writer is dropped; with the hint entry first it is lost. *)
+Theorem C20_reachable_states_have_hint_rows : forall s, Inv s -> hint_rows (s_dir s) (s_stats s).
+Proof. exact inv_hint_rows. Qed.
+Print Assumptions C20_reachable_states_have_hint_rows.
+
+Theorem C20_failed_hint_write_keeps_rows : forall repoint_first retried c s ord1 k s', hint_rows (s_dir s) (s_stats s) ->
+  merge_fail_hint repoint_first true retried c s ord1 k = ROk s' -> hint_rows (s_dir s') (s_stats s').
+Proof. exact row_first_keeps_hint_rows. Qed.
+Print Assumptions C20_failed_hint_write_keeps_rows.
+
+Theorem C20_hint_before_row_refuted :
+  match merge_fail_hint false false true fm_cfg fm2_before [] [107] with
+  | ROk s' => exists id f h, dir_get (s_dir s') id = Some f /\ d_hint f = Some [h] /\ sget (s_stats s') id = None
+  | _ => False
+  end.
+Proof. exact hint_before_row_loses_the_row. Qed.
+Print Assumptions C20_hint_before_row_refuted.
+
 (* non-vacuity: the history starts from an invariant state and the failing pass is defined on it *)
 Example C20_failed_hint_example : Inv fm_before /\ exists s', merge_fail_hint false true false fm_cfg fm_before [] [75] = ROk s'.
 Proof. split; [exact fm_before_inv|]. vm_compute. eauto. Qed.
